@@ -539,8 +539,24 @@ func genRawUnusedSameName(r *RNG, k int, ios bool) *Case {
 			items = append(items, item{kd, n, i})
 		}
 	}
-	for i := r.Intn(3); i > 0; i-- {
-		items = append(items, item{r.Intn(len(kinds)), g.name("y"), 20 + i})
+	if k == 1 && r.Chance(60) {
+		// spaced (see arrange in main.go): isReferenced is filled in ascending (prefix, name) order; three
+		// more unused commands of the first kind with larger names put the two X entries at slots 0 and 4
+		// of the 8-slot map, three of the second kind fill it up
+		first, second := items[0].kind, items[1].kind
+		if first > second {
+			first, second = second, first
+		}
+		items = items[:0]
+		x := g.name("a")
+		items = append(items, item{first, x, 0}, item{second, x, 0})
+		for i := 1; i <= 3; i++ {
+			items = append(items, item{first, g.name("y"), i}, item{second, g.name("z"), 10 + i})
+		}
+	} else {
+		for i := r.Intn(3); i > 0; i-- {
+			items = append(items, item{r.Intn(len(kinds)), g.name("y"), 20 + i})
+		}
 	}
 	Shuffle(r, items)
 	for _, it := range items {
